@@ -1,10 +1,15 @@
 """Ghost ODE solver: stands for myokit.Simulation inside shadow chi modules.
 
 Assumed contract (A) of the external solver, which this object *is* the statement of:
-  a Simulation holds (model, protocol, sensitivity request, state vector in model.states() order, constants);
+  a Simulation holds (model, protocol, sensitivity request, state vector in model.states() order, constants, current time,
+  state sensitivities);
   run(duration, log, log_times) returns, for the model / protocol / state / constants it currently holds, the solution of
-  the initial-value problem at log_times for the logged variables, and -- if a sensitivity request (outputs, parameters)
-  was given at construction -- the array [time][output][parameter] of partial derivatives.
+  the initial-value problem started at the held time, at the log_times inside [time, time + duration), for the logged
+  variables, and -- if a sensitivity request (outputs, parameters) was given at construction -- the array
+  [time][output][parameter] of partial derivatives *provided the held state sensitivities are the default ones*; afterwards
+  it holds the final state, the final state sensitivities and time + duration;
+  reset() restores time 0, the default state and the default state sensitivities; set_time / set_state change only the
+  time / the state  (myokit/_sim/cvodessim.py: reset, run, _run).
 The ghost records every call, so contracts can state what the solver holds after any sequence of chi calls, and returns
 opaque symbolic solutions tagged with the identity of the solver state they were computed from.
 """
@@ -30,12 +35,16 @@ class GhostSimulation(object):
             self.sensitivities = (list(outs), [str(p) for p in pars])
         self.state_names = [v.qname() for v in model.states()]
         self.state = None
+        self.time = sp.Integer(0)
+        self.s_state = 'default'
         self.constants = {}
         self.calls = []
         LOG.append(('new', self.uid, None if protocol is None else id(protocol), self.sensitivities))
 
     def reset(self):
         self.state = None
+        self.time = sp.Integer(0)
+        self.s_state = 'default'
         self.calls.append(('reset',))
 
     def set_state(self, state):
@@ -59,7 +68,8 @@ class GhostSimulation(object):
         self.calls.append(('set_protocol', None if protocol is None else id(protocol)))
 
     def set_time(self, t=0):
-        pass
+        self.time = sp.nsimplify(w(t)) if not isinstance(t, S) else w(t)
+        self.calls.append(('set_time', self.time))
 
     def set_tolerance(self, *a, **k):
         pass
@@ -67,7 +77,8 @@ class GhostSimulation(object):
     def snapshot(self):
         """what the solver holds (the arguments of the assumed IVP contract)"""
         return {'model': self.model.code(), 'protocol': protocol_events(self.protocol), 'sensitivities': self.sensitivities,
-                'state': None if self.state is None else dict(zip(self.state_names, self.state)), 'constants': dict(self.constants)}
+                'state': None if self.state is None else dict(zip(self.state_names, self.state)), 'constants': dict(self.constants),
+                'time': self.time, 's_state': self.s_state if self.sensitivities is not None else None}
 
     def run(self, duration, log=None, log_times=None):
         log = list(log)
@@ -77,6 +88,17 @@ class GhostSimulation(object):
         LOG.append(('run', self.uid, tag))
         for name in log:
             self.model.get(name)         # KeyError like myokit
+        t0, dur = self.time, sp.sympify(w(duration))
+        if t0.is_number and dur.is_number:
+            if dur < 0:
+                raise ValueError("Simulation time can't be negative.")
+            # only log times inside [time, time + duration) are logged
+            times = [t for t in times if not (sp.sympify(t).is_number and not (t0 <= sp.sympify(t) < t0 + dur))]
+        self.time = t0 + dur
+        end = sp.Function('END', real=True)
+        self.state = [end(sp.Symbol('run%d' % tag), sp.Symbol(nm.replace('.', '__'))) for nm in self.state_names]
+        if self.sensitivities is not None:
+            self.s_state = 'end of run%d' % tag
         out = {}
         for name in log:
             f = sp.Function('SOL', real=True)
